@@ -32,9 +32,46 @@ type Engine struct {
 	wsum      map[*ssa.Function][]bool
 	assumed   map[string]bool
 	loadErrs  []string
+	loadErrInfo []loadErr
 	renameNotes []string
 	ginit     *globalInit
 	ginitOnce sync.Once
+}
+
+// loadErr: a contract that does not resolve against the current source, with the properties it carries clauses for.
+type loadErr struct {
+	key  string
+	tags []string
+	msg  string
+}
+
+func contractTags(ct *Contract) []string {
+	seen := map[string]bool{}
+	var out []string
+	add := func(ts []string) {
+		for _, t := range ts {
+			if t != "" && !seen[t] {
+				seen[t] = true
+				out = append(out, t)
+			}
+		}
+	}
+	add(ct.SafetyTags)
+	add(ct.BoundedTags)
+	for _, rc := range ct.raw {
+		add(splitTags(rc.tags))
+	}
+	for _, rcs := range ct.rawLoops {
+		for _, rc := range rcs {
+			add(splitTags(rc.tags))
+		}
+	}
+	return out
+}
+
+func (e *Engine) addLoadErr(ct *Contract, msg string) {
+	e.loadErrs = append(e.loadErrs, msg)
+	e.loadErrInfo = append(e.loadErrInfo, loadErr{ct.Key, contractTags(ct), msg})
 }
 
 // globalInit: the values package init gives to package-level variables that are never written afterwards
@@ -212,11 +249,11 @@ func LoadEngine(repo string) (*Engine, error) {
 		}
 		for _, ct := range cts {
 			if err := e.resolveHeader(ct); err != nil {
-				e.loadErrs = append(e.loadErrs, err.Error())
+				e.addLoadErr(ct, err.Error())
 				continue
 			}
 			if _, dup := e.contracts[ct.Key]; dup {
-				e.loadErrs = append(e.loadErrs, "duplicate contract for "+ct.Key)
+				e.addLoadErr(ct, "duplicate contract for "+ct.Key)
 				continue
 			}
 			e.contracts[ct.Key] = ct
@@ -225,7 +262,8 @@ func LoadEngine(repo string) (*Engine, error) {
 	}
 	for _, ct := range e.order {
 		if err := e.bindContract(ct); err != nil {
-			e.loadErrs = append(e.loadErrs, err.Error())
+			ct.Broken = err.Error()
+			e.addLoadErr(ct, err.Error())
 		}
 	}
 	return e, nil
